@@ -5,9 +5,7 @@ package main
 
 import (
 	"bytes"
-	"encoding/json"
 	"fmt"
-	"os"
 	"strconv"
 	"strings"
 
@@ -596,66 +594,3 @@ func splitCompkey(b []byte) [][]byte {
 	return out
 }
 
-// ---------------------------------------------------------------------------------------------------
-func runAol(seed uint64, n int, out string, replay string, nBlocks int) {
-	o := NewOut(out)
-	o.Decl("# profile aol seed %d", seed)
-	stats := map[string]int{}
-	var findings []finding
-	var samples []string
-	distinct := map[string]bool{}
-	nontrivial := 0
-	total := 0
-	run := func(lines []string) {
-		x := NewExec(o)
-		x.Mons = []Monitor{&aolRecordMonitor{}, &aolAuthMonitor{}, &aolCounterMonitor{}}
-		x.Run(lines)
-		if x.C != nil {
-			x.C.Close()
-		}
-		for k, v := range x.Stats {
-			stats[k] += v
-		}
-		findings = append(findings, x.Findings...)
-		total++
-		key := strings.Join(lines, "\n")
-		if !distinct[key] {
-			distinct[key] = true
-			ok, rej := 0, 0
-			for k, v := range x.Stats {
-				if k == "result:R ok" {
-					ok += v
-				} else if strings.HasPrefix(k, "result:") {
-					rej += v
-				}
-			}
-			if ok > 0 && rej > 0 {
-				nontrivial++
-			}
-		}
-		o.Decl("RESET")
-	}
-	if replay != "" {
-		data, err := os.ReadFile(replay)
-		must(err)
-		run(strings.Split(string(data), "\n"))
-	} else {
-		r := NewRNG(seed)
-		for i := 0; i < n; i++ {
-			lines := genAolHistory(r.Fork(), nBlocks)
-			if i < 2 {
-				samples = append(samples, strings.Join(lines[:min(len(lines), 14)], " ; "))
-			}
-			run(lines)
-		}
-	}
-	o.Close()
-	if findings == nil {
-		findings = []finding{}
-	}
-	res := map[string]any{"profile": "aol", "seed": seed, "commands": o.nCmd, "histories": total,
-		"stats": map[string]any{"distinct_histories": len(distinct), "distinct_nontrivial": nontrivial, "kinds": stats},
-		"findings": findings, "samples": samples}
-	data, _ := json.MarshalIndent(res, "", " ")
-	must(os.WriteFile(out+"/monitor.json", data, 0o644))
-}
